@@ -31,6 +31,7 @@ type c14iter struct {
 	idx      *Term // slice loops: the index term used (φ or φ+1)
 	next     *Term // map loops: the next-tuple
 	full     bool
+	fullRev  bool // visits len-1 .. 0
 	idxPhi   *ssa.Phi
 }
 
@@ -66,11 +67,75 @@ func c14IterOf(li *LoopInfo) *c14iter {
 	if ct == nil {
 		return nil
 	}
-	if ct.Bound.Op == "builtin" && ct.Bound.Sym == "len" {
-		over := ct.Bound.Args[0]
-		return &c14iter{li: li, kind: "slice", over: over, idx: ct.Idx, full: ct.fullForwardOver(over), idxPhi: ct.Phi}
+	lv := li.LV[ct.Phi]
+	// the element index actually used: an access X[E] with E = lv + k
+	var over, E *Term
+	scan := func(t *Term) {
+		if t == nil {
+			return
+		}
+		t.Walk(func(x *Term) bool {
+			if (x.Op == "iaddr" || x.Op == "index") && len(x.Args) == 2 && x.Args[1].ContainsKey(lv.Key()) {
+				if _, isC := ToPoly(x.Args[1]).Add(ToPoly(lv), -1).IsConst(); isC && E == nil {
+					over, E = x.Args[0], x.Args[1]
+				}
+			}
+			return true
+		})
 	}
-	return nil
+	for _, p := range li.Back {
+		for i := p.LoopAt[li.Hdr]; i < len(p.Events); i++ {
+			e := &p.Events[i]
+			for _, t := range append([]*Term{e.Addr, e.Key, e.Val}, e.Args...) {
+				scan(t)
+			}
+		}
+		for _, cd := range p.Conds {
+			if cd.NEv >= p.LoopAt[li.Hdr] {
+				scan(cd.T)
+			}
+		}
+		for _, nx := range p.Next {
+			scan(nx)
+		}
+	}
+	for _, p := range li.Exit {
+		for _, r := range p.Rets {
+			scan(r)
+		}
+	}
+	if E == nil {
+		// no element access: fall back to the bound's slice with the condition's index
+		if ct.Bound.Op == "builtin" && ct.Bound.Sym == "len" {
+			over, E = ct.Bound.Args[0], ct.Idx
+		} else {
+			return nil
+		}
+	}
+	it := &c14iter{li: li, kind: "slice", over: over, idx: E, idxPhi: ct.Phi}
+	k := ToPoly(E).Add(ToPoly(lv), -1) // constant
+	first := ToPoly(li.Init[ct.Phi]).Add(k, 1)
+	lenX := ToPoly(&Term{Op: "builtin", Sym: "len", Args: []*Term{over}})
+	// the continue condition as P > 0
+	condRel := Rel{Op: ct.Op, A: ct.Idx, B: ct.Bound}
+	P, kind, okc := condRel.IntNorm()
+	if okc && kind == ">" {
+		if ct.Step == 1 && first.Equal(polyConst(0)) && P.Equal(lenX.Add(ToPoly(E), -1)) {
+			it.full = true
+		}
+		if ct.Step == -1 && first.Equal(lenX.Add(polyConst(1), -1)) && P.Equal(ToPoly(E).Add(polyConst(1), 1)) {
+			it.fullRev = true
+		}
+	}
+	return it
+}
+
+// idxOrKey: the index term of a slice iteration (nil-safe zero for map iterations)
+func (it *c14iter) idxOrKey() *Term {
+	if it.kind == "slice" && it.idx != nil {
+		return it.idx
+	}
+	return intConst(0)
 }
 
 // accumulators other than the index
@@ -311,6 +376,9 @@ func runC14(c *Ctx) {
 						if pl.Equal(polyConst(1).Add(ToPoly(lenLV), -1)) {
 							nonEmpty = "no"
 						}
+					} else if isInt && pl.Equal(canonSign(ToPoly(lenLV))) {
+						// len != 0 / len == 0 (a length is never negative)
+						nonEmpty = map[string]string{"!=": "yes", "=": "no"}[kind]
 					}
 					t, pol := stripNot(cd.T, cd.Pol)
 					if t.Op == "call" {
@@ -500,25 +568,21 @@ func runC14(c *Ctx) {
 			ok, why = false, "expected one loop"
 		} else {
 			li := loops[0]
-			ct := counted(li)
-			if ct == nil {
-				ok, why = false, "not a counted loop"
+			it := c14IterOf(li)
+			if it == nil || it.kind != "slice" || it.over.Key() != s.Key() {
+				ok, why = false, "not a counted loop over the slice"
 			} else {
-				var st *ssa.Phi
-				for _, phi := range li.Phis {
-					if phi != ct.Phi {
-						st = phi
-					}
-				}
-				if st == nil {
-					ok, why = false, "no loop-carried state: the accumulator's result is not threaded"
+				accs := it.accPhis()
+				if len(accs) != 1 {
+					ok, why = false, "no single loop-carried state: the accumulator's result is not threaded"
 				} else {
+					st := accs[0]
 					lv := li.LV[st]
 					if li.Init[st] == nil || li.Init[st].Key() != seed.Key() {
 						ok, why = false, "the state does not start as the seed"
 					}
 					for _, nx := range li.Nexts[st] {
-						if !(nx.Op == "call" && nx.Sym == "dyn" && len(nx.Args) == 3 && nx.Args[0].Key() == acc.Key() && nx.Args[1].Key() == lv.Key() && isElemOf(nx.Args[2], s, ct.Idx)) {
+						if !(nx.Op == "call" && nx.Sym == "dyn" && len(nx.Args) == 3 && nx.Args[0].Key() == acc.Key() && nx.Args[1].Key() == lv.Key() && it.isElem(nx.Args[2])) {
 							ok, why = false, "the next state is not acc(state, slice[i]): "+nx.String()
 						}
 					}
@@ -527,18 +591,12 @@ func runC14(c *Ctx) {
 							ok, why = false, "does not return the state"
 						}
 					}
-					lenS := &Term{Op: "builtin", Sym: "len", Args: []*Term{s}}
-					first, _ := ct.First.IsConst()
-					if name == "slices.Fold" {
-						if !(ct.Step == 1 && ct.First.Equal(polyConst(0)) && ct.Op == "<" && isLenOf(ct.Bound, s)) {
-							ok, why = false, "does not visit 0..len-1 upwards"
-						}
-					} else {
-						if !(ct.Step == -1 && ct.First.Equal(ToPoly(lenS).Add(polyConst(1), -1)) && ((ct.Op == ">=" && ct.Bound.IsConst("0")) || (ct.Op == ">" && ct.Bound.IsConst("-1")))) {
-							ok, why = false, fmt.Sprintf("does not visit len-1..0 downwards (first %s, step %d, while index %s %s)", ct.First, ct.Step, ct.Op, ct.Bound)
-						}
+					if name == "slices.Fold" && !it.full {
+						ok, why = false, "does not visit 0..len-1 upwards"
 					}
-					_ = first
+					if name == "slices.FoldReverse" && !it.fullRev {
+						ok, why = false, "does not visit len-1..0 downwards"
+					}
 				}
 			}
 		}
@@ -632,6 +690,23 @@ func runC14(c *Ctx) {
 							good = len(r) == 1 && it.isKey(r[0])
 						case "true", "false":
 							good = len(r) == 1 && r[0].IsConst(row.onMatch)
+							if !good && len(r) == 1 && row.onMatch == "true" {
+								// "index != -1" / "index >= 0" for the matching index (an index is never negative)
+								if pl, kind, isInt := NormRel(r[0], true).IntNorm(); isInt {
+									for kk, cf := range pl.M {
+										if kk == "" {
+											continue
+										}
+										at := pl.Atoms[kk]
+										_ = at
+										_ = cf
+									}
+									keyP := ToPoly(it.idxOrKey())
+									if d, isC := pl.Add(keyP, -1).IsConst(); isC && d >= 1 && (kind == ">" || kind == "!=") {
+										good = true
+									}
+								}
+							}
 						case "keytrue":
 							good = len(r) == 2 && it.isKey(r[0]) && r[1].IsConst("true")
 						}
@@ -664,10 +739,26 @@ func runC14(c *Ctx) {
 	}
 	if fi := c.P.Func("maps.HasKey"); fi != nil && paths[fi] != nil {
 		ps := paths[fi]
-		ok := len(ps) == 1 && len(ps[0].Rets) == 1
-		if ok {
-			r := ps[0].Rets[0]
-			ok = r.Op == "extract" && r.N == 1 && r.Args[0].Op == "lookup" && isParam(r.Args[0].Args[0], 0) && isParam(r.Args[0].Args[1], 1)
+		isFlag := func(t *Term) bool {
+			return t.Op == "extract" && t.N == 1 && t.Args[0].Op == "lookup" && isParam(t.Args[0].Args[0], 0) && isParam(t.Args[0].Args[1], 1)
+		}
+		ok := len(ps) >= 1
+		for _, p := range ps {
+			if len(p.Rets) != 1 {
+				ok = false
+				continue
+			}
+			if len(p.Conds) == 0 {
+				ok = ok && isFlag(p.Rets[0])
+				continue
+			}
+			// if present { return true }; return false
+			for _, cd := range p.Conds {
+				t, pol := stripNot(cd.T, cd.Pol)
+				if !isFlag(t) || !p.Rets[0].IsConst(fmt.Sprint(pol)) {
+					ok = false
+				}
+			}
 		}
 		R.Decide(ok, "early-exit-table", fi.Name, "rows", c.pos(fi), "the comma-ok of m[key]", "HasKey is not the presence flag of m[key]")
 	}
